@@ -30,7 +30,7 @@ def replay_helper(sp):
         from skfem.element import DiscreteField
         conv = np.asarray
         fld = lambda val, **k: DiscreteField(value=val, **k)
-    f = getattr(M, name)
+    f = getattr(M, name if name != "prod3" else "prod")
     sq = lambda a: np.asarray(a, dtype=float)[..., 0, 0]
     a_, b_, u_, v_, w_, g_, h_ = sq(A), sq(B), sq(u), sq(v), sq(w), sq(G), sq(H)
     cases = {
@@ -38,6 +38,7 @@ def replay_helper(sp):
         "ddot": (lambda: f(conv(A), conv(B)), lambda: np.sum(a_ * b_)),
         "dddot": (lambda: f(conv(G), conv(H)), lambda: np.sum(g_ * h_)),
         "prod": (lambda: f(conv(u), conv(v)), lambda: np.outer(u_, v_)),
+        "prod3": (lambda: getattr(M, "prod")(conv(u), conv(v), conv(w)), lambda: np.einsum("i,j,k->ijk", u_, v_, w_)),
         "mul": (lambda: f(conv(A), conv(u)), lambda: a_ @ u_),
         "trace": (lambda: f(conv(A)), lambda: np.trace(a_)),
         "transpose": (lambda: f(conv(A)), lambda: a_.T),
@@ -127,3 +128,20 @@ def replay_quadrature_fresh(sp):
     bad = not (np.array_equal(X1, Xc) and np.array_equal(W1, Wc))
     return dict(confirmed=bool(bad), observed="second call returns weights summing to %r" % float(W1.sum()), required="sum %r" % float(Wc.sum()),
                 input="X, W = %s(%d); X *= 3; W += 1; %s(%d)" % (sp["getter"], n, sp["getter"], n))
+
+
+def replay_jaxfield(sp):
+    import jax.numpy as jnp
+    from skfem.autodiff import JaxDiscreteField as DF
+    a, b = jnp.asarray([[0.3, 1.7]]), jnp.asarray([[2.0, -0.4]])
+    fa = DF(a)
+    name, form = sp["op"], sp["form"]
+    other = {"field-field": DF(b), "field-array": b, "field-number": 2.5, "array-field": b, "number-field": 2.5}[form]
+    ov = other.value if isinstance(other, DF) else other
+    import operator
+    base = {"add": operator.add, "sub": operator.sub, "mul": operator.mul, "truediv": operator.truediv,
+            "rsub": lambda x, y: y - x, "rmul": lambda x, y: y * x, "rtruediv": lambda x, y: y / x}[name]
+    got = np.asarray(getattr(fa, "__%s__" % name)(other))
+    req = np.asarray(base(a, ov))
+    return dict(confirmed=bool(np.max(np.abs(got - req)) > 1e-12), observed=got.tolist(), required=req.tolist(),
+                input="JaxDiscreteField([[0.3,1.7]]).__%s__(%s)" % (name, form))
